@@ -11,8 +11,8 @@ META = {
                           "BitAnd/BitOr/BitXor for &Bitset, BitAndAssign/BitOrAssign/BitXorAssign, Not", "BitsIter::{new,next}",
                           "MIR of <Bitset<N> as Display>::fmt, <Bitset<N> as Debug>::fmt, their closures and Bitset::test (rendering engine)"],
     "bounds": {"quick": "N in {1,2,3} words; all word contents; all operation indices; all observer indices (whole-iterator run: N<=2); rendering: N in {1,2,3}, all word contents, every character position",
-               "thorough": "adds the whole-iterator run at N=3 and the rendering at N=4"},
-    "outside_claim": ["N > 3 (rendering: N > 4)", "the inside of core::fmt / alloc: in the rendering engine Range::map, collect, <int as ToString>::to_string, [String]::join, the format-argument plumbing and Formatter::write_fmt are models with their documented meaning (a Kani harness through the real core::fmt did not leave symbolic execution in 900 s at N=1); a rendering written with another formatting spec or iterator adaptor is reported inconclusive",
+               "thorough": "adds the whole-iterator run at N=3 and the rendering at N in {4, 8, 16, 17}"},
+    "outside_claim": ["N > 3 (rendering: N not in {1,2,3} quick / {1,2,3,4,8,16,17} thorough)", "the inside of core::fmt / alloc: in the rendering engine Range::map, collect, <int as ToString>::to_string, [String]::join, the format-argument plumbing and Formatter::write_fmt are models with their documented meaning (a Kani harness through the real core::fmt did not leave symbolic execution in 900 s at N=1); a rendering written with another formatting spec or iterator adaptor is reported inconclusive",
                       "histories longer than builder + 1 operation are covered by induction over the state (arbitrary words), not replayed"],
     "stubs_and_assumes": ["state builder uses from_u64 + set at concrete indices; its postcondition test(i)==bit i is asserted first",
                           "rendering engine: std models listed under outside_claim; the bitset state is the array of N symbolic words"],
@@ -62,7 +62,7 @@ def run_engine(tier, seed, known, only):
         txt = core.dump_mir(_k.REPO, "rlib/bitset", os.path.join(BUILD, "mir"), False, "rel")
         src = open(os.path.join(_k.REPO, "rlib/bitset/src/bitset.rs")).read()
         P = BitsetProgram(txt)
-        for N in ((1, 2, 3) if tier == "quick" else (1, 2, 3, 4)):
+        for N in ((1, 2, 3) if tier == "quick" else (1, 2, 3, 4, 8, 16, 17)):
             for r in check_render(P, N, src):
                 rec = {"name": "render " + r["name"], "engine": "mirsym", "status": "PASS", "ok": True, "queries": r.get("queries", 0), "time": r["time"], "solver_time": r["time"],
                        "desc": "the text written by fmt has 64N characters and character i is '1' exactly when i is a member (all word contents)", "bounds": "N=%d" % N}
